@@ -6,6 +6,7 @@ package sql
 
 import (
 	"context"
+	"strconv"
 
 	"github.com/gobuffalo/pop/v6"
 	"github.com/gofrs/uuid"
@@ -536,6 +537,11 @@ func HarnessC05Chunks() {
 	}
 	which := verifChoice(2)
 	db.failAt = verifChoice(3) // 0 none, 1 first statement, 2 second statement
+	retry := false
+	if db.failAt != 0 && verifChoice(2) == 1 {
+		// the failure is retryable: the transaction callback runs a second time and succeeds
+		db.retryable, retry = true, true
+	}
 	var err error
 	if which == 0 {
 		var ts []*relationtuple.RelationTuple
@@ -545,7 +551,10 @@ func HarnessC05Chunks() {
 		verifTag("insert-3001")
 		err = p.WriteRelationTuples(ctx, ts...)
 		verifReach("c05.chunks.insert")
-		if db.failAt == 0 {
+		if retry {
+			verifTag("insert-3001-with-transaction-retry")
+			verifAssert(err == nil && len(db.rows) == chunkSizeInsertTuple+1, "C05: a 3001-relationship insert whose transaction is re-run after a retryable failure does not store exactly all rows")
+		} else if db.failAt == 0 {
 			verifAssert(err == nil && len(db.rows) == chunkSizeInsertTuple+1 && db.mutating == 2, "C05: a 3001-relationship insert does not take two statements / does not store all rows")
 		} else {
 			verifAssert(err != nil && len(db.rows) == 0, "C05: a failing statement of a chunked insert leaves rows of an earlier chunk behind")
@@ -563,7 +572,14 @@ func HarnessC05Chunks() {
 		verifTag("delete-101")
 		err = p.DeleteRelationTuples(ctx, ts...)
 		verifReach("c05.chunks.delete")
-		if db.failAt == 0 {
+		if retry {
+			verifTag("delete-101-with-transaction-retry")
+			gone := true
+			for _, r := range db.rows {
+				gone = verifAnd(gone, verifNot(r.present))
+			}
+			verifAssert(err == nil && gone, "C05: a 101-relationship delete whose transaction is re-run after a retryable failure reports success but does not delete all")
+		} else if db.failAt == 0 {
 			gone := true
 			for _, r := range db.rows {
 				gone = verifAnd(gone, verifNot(r.present))
@@ -733,5 +749,51 @@ func HarnessC13PageSize() {
 	}
 	if verifConcretizeBool(verifAnd(verifLess(0, size), verifLess(size, K+1))) {
 		verifAssert(verifNot(verifLess(size, len(res))), "C13: a page holds more rows than the page size")
+	}
+}
+
+func dbCfgMaxReadWidth(c *config.Config) int { return 100 }
+
+// HarnessC07TraverseLarge: the subject-set expansion pages through the rows of
+// one object#relation 1000 at a time with its own keyset loop. A concrete table
+// with 999..2001 subject-set rows on one node, the only subject set that
+// contains the subject stored last (or nowhere): every row is returned until
+// the first 'found', which is found however many pages precede it.
+func HarnessC07TraverseLarge() {
+	db = &dbState{}
+	dbInserted = nil
+	dbQueries = map[*pop.Query]*dbQuery{}
+	p := newModelPersister(0)
+	tr := NewTraverser(p)
+	ctx := dbCtx()
+	sizes := []int{1000, 1001}
+	if verifParam("large") == 1 {
+		sizes = []int{999, 1000, 1001, 2000, 2001}
+	}
+	n := sizes[verifChoice(len(sizes))]
+	withMember := verifChoice(2) == 1
+	// n rows N:o0#r@(N:o1#r); the last one N:o0#r@(N:o2#r)
+	for i := 0; i < n; i++ {
+		so := 1
+		if i == n-1 {
+			so = 2
+		}
+		db.rows = append(db.rows, dbRow{present: true, nid: 0, ns: 0, obj: 0, rel: 0, isSet: true, sns: 0, sobj: so, srel: 0})
+	}
+	if withMember {
+		// N:o2#r@u1
+		db.rows = append(db.rows, dbRow{present: true, nid: 0, ns: 0, obj: 2, rel: 0, sid: 1})
+	}
+	verifTag("rows=" + strconv.Itoa(n))
+	start := apiTuple{ns: 0, obj: 0, rel: 0, sub: apiSub{sid: 1}}
+	res, err := tr.TraverseSubjectSetExpansion(ctx, start.value())
+	verifReach("c07.traverse-large")
+	if err != nil {
+		verifFail("C07: TraverseSubjectSetExpansion fails on a large node: " + err.Error())
+		return
+	}
+	verifAssert(len(res) == n, "C07: the subject-set expansion does not return every subject set of a node with more rows than its page")
+	if len(res) == n {
+		verifAssert(res[n-1].Found == withMember, "C07: the subject-set expansion misses (or invents) the membership found beyond its first page")
 	}
 }
